@@ -41,7 +41,10 @@ Record prog := mkProg {
   p_cli : list step;          (* before the tests of the information switches *)
   p_flags : list string;      (* switches whose presence makes parse() return false *)
   p_cfgopt : string;          (* option that names the config file *)
-  p_cfg : list step }.        (* executed when the config file exists and opens *)
+  p_cfg : list step;          (* executed when the config file exists and opens *)
+  p_nopos : bool }.           (* the command line is parsed with an (empty) positional_options_description:
+                                 a bare word is an error.  false (pinned tree): parse_command_line without
+                                 one - bare words are dropped silently *)
 
 (** ProgramOptions::save(std::string) *)
 Record wrules := mkW {
